@@ -225,6 +225,16 @@ def translate():
     step('_arl.pack2d.SCEXP', lambda: shift('pack2d', 'SCEXP', 'arl_pack_shift', ['NEXP']))
     step('_arl.unpack.scale', lambda: shift('unpack', 'scale', 'arl_unpack_shift', ['EXP']))
 
+    def inqvh():
+        v = one(m.assignments('inqarlpackedbit', 'vheader'), 'vheader')
+        kw = None
+        if isinstance(v, ast.Subscript) and isinstance(v.value, ast.Call):
+            kw = {k.arg: k.value for k in v.value.keywords}.get('dtype')
+        if not (isinstance(kw, ast.BinOp) and isinstance(kw.op, ast.Mod) and isinstance(kw.left, ast.Constant) and kw.left.value == '>%dS'):
+            raise U('inqarlpackedbit vheader dtype form')
+        return defn('arl_inq_vheaderlen', kw.right, ['hlen'])
+    step('_arl.inqarlpackedbit.vheader', inqvh)
+
     def gridoff(t, p):
         return lambda: defn('arl_' + t, one(m.assignments('inqarlpackedbit', t), t), [p])
     step('_arl.inqarlpackedbit.gridx_off', gridoff('gridx_off', 'GRID_0'))
